@@ -80,6 +80,8 @@ Definition sign (p : pv) (q : request) : pv * resp :=
 Inductive sop :=
 | SReq (q : request)          (* a signing request whose answer is released *)
 | SReqLost (q : request)      (* process dies after saveSigned, before the answer leaves *)
+| SReqFail (q : request)      (* the state file cannot be written while q is being signed: the signer stops
+                                 (it panics) without releasing anything, and is started again from the file *)
 | SReload.                    (* restart: LoadSFilePV reads the state file *)
 
 (* observable output, as the harness sees it on the real signer *)
@@ -98,6 +100,7 @@ Definition sstep (p : pv) (o : sop) : pv * sout * option (request * resp) :=
        Some (q, r))
   | SReqLost q =>
       let '(p', _) := sign p q in (reload p', ONone, None)
+  | SReqFail _ => (reload p, ONone, None)
   | SReload => (reload p, ONone, None)
   end.
 
@@ -126,6 +129,10 @@ Definition hrs_leb (a b : released) : bool :=
 Fixpoint released_of (ops : list sop) (outs : list sout) : list released :=
   match ops, outs with
   | SReq q :: ops', OSigned ts :: outs' =>
+      {| rl_h := q_h q; rl_r := q_r q; rl_step := q_step q; rl_content := q_content q; rl_ts := ts |}
+        :: released_of ops' outs'
+  | SReqFail q :: ops', OSigned ts :: outs' =>
+      (* a signature that left the signer although its record could not be saved counts as released *)
       {| rl_h := q_h q; rl_r := q_r q; rl_step := q_step q; rl_content := q_content q; rl_ts := ts |}
         :: released_of ops' outs'
   | _ :: ops', _ :: outs' => released_of ops' outs'
@@ -169,6 +176,7 @@ Fixpoint resign_ok (last : option released) (ops : list sop) (outs : list sout) 
       let last' := match o with OSigned t => Some (rel_of q t) | _ => last end in
       ok && resign_ok last' ops' outs'
   | SReqLost _ :: ops', _ :: outs' => resign_ok None ops' outs'
+  | SReqFail _ :: ops', _ :: outs' => resign_ok None ops' outs'
   | SReload :: ops', _ :: outs' => resign_ok last ops' outs'
   | _, _ => true
   end.
